@@ -31,7 +31,7 @@ for i in range(1, 21):
     if pid not in checks:
         todo[pid] = "check not built yet (build round in progress)"
 LEVEL_TEXT = {
- "sched": "Stateless model checking of the implementation under a controlled scheduler: 2-3 logical threads performing 1-2 operations each on shared targets, converters and option values; every schedule within the preemption bound (2 quick / 3 thorough; scheduling points at hooked accesses of classes that have a location touched by two threads with a write, at user-body yields and at lock acquires) is executed; per execution: happens-before race detection on hooked locations, deadlock/livelock/panic detection, and comparison of each thread's outcome with its outcomes in all serial orders. Memory the hooks cannot name (reflect writes, slice backing arrays, map internals) is covered by a separate free-running -race pass, which is exhaustive over the case alphabet but not over schedules.",
+ "sched": "Stateless model checking of the implementation under a controlled scheduler: 2-3 logical threads performing 1-2 operations each on shared targets, converters and option values; every schedule within the preemption bound (3 for 2 threads x 1 operation, 2 for 2 x 2 and 3 x 1 in thorough; scheduling points at hooked accesses of classes that have a location touched by two threads with a write, at user-body yields and at lock acquires) is executed; per execution: happens-before race detection on hooked locations, deadlock/livelock/panic detection, and comparison of each thread's outcome with its outcomes in all serial orders. Memory the hooks cannot name (reflect writes, slice backing arrays, map internals) is covered by a separate free-running -race pass, which is exhaustive over the case alphabet but not over schedules.",
  "hist": "Bounded exhaustive model checking over histories: every operation sequence up to the stated depth over a fixed menu is executed on real shared objects (fresh per history), under sorted/reversed order and (for short histories) every one-deviation order; oracles are differential between two ways of reaching the same state.",
  "api": "Bounded exhaustive model checking of the API surface: every case of a closed-form enumeration (stated in the evidence) is executed on the real library, under sorted and globally reversed map order, and compared with a reference computed from the case description.",
  "graph": "Bounded exhaustive model checking of internal/graph: every digraph of the stated size and weight alphabet is run through the real algorithm under every map-iteration order (all orders for n<=3; within the stated deviation bound otherwise) and compared with a textbook reference on every execution.",
